@@ -3,7 +3,7 @@
 From Coq Require Import List NArith Bool Permutation.
 From SV Require Import Fmt.VpkDir Fmt.VpkDirProofs Fmt.VpkName Fmt.VpkNameSplit Fmt.VpkNameProofs SM.Vpk SM.VpkProofs.
 From SV Require Import Fmt.VpkArchName Fmt.VpkArchNameProofs SM.VpkRefine Fmt.VpkDirV2.
-From SV Require Import Fmt.VpkNullStr Fmt.VpkNullStrProofs SM.VpkNested SM.VpkNestedProofs SM.VpkApi SM.VpkApiProofs SM.VpkNestedMap SM.VpkNestedMapProofs.
+From SV Require Import Fmt.VpkNullStr Fmt.VpkNullStrProofs SM.VpkNested SM.VpkNestedProofs SM.VpkApi SM.VpkApiProofs SM.VpkNestedMap SM.VpkNestedMapProofs SM.VpkNestedSim.
 Import ListNotations.
 Open Scope N_scope.
 
@@ -346,3 +346,22 @@ Theorem c13_nested_insert_refuted :
   /\ option_map (fun t => nlookup t ([116], [97], [120])) (nins goc_pinned goc_pinned ex_t2 ([116], [99], [122]) ex_info) = Some (Some ex_info)
   /\ option_map (fun t => nlookup t ([116], [99], [122])) (nins goc_pinned goc_forgets_store ex_t2 ([116], [99], [122]) ex_info) = Some None.
 Proof. exact goc_refuted. Qed.
+
+(** ---- the nested dicts simulate the table of the state machine (SM/VpkNestedSim.v) ---- *)
+
+(** [nrel t tb]: looking a name up in the nested dicts gives what the table of SM/Vpk.v holds for it.  It holds for the empty archive
+    and is preserved by new_file / an in-place update of an entry ([aset] on the table) and by __delitem__ ([adel]), for the
+    translated descriptions of both; a KeyError from the nested delete implies that the table has no such file. *)
+Theorem c13_nested_simulates_table_empty : nrel [] [].
+Proof. exact nrel_nil. Qed.
+
+Theorem c13_nested_simulates_table_new_file : forall g1 g2, goc_ok g1 = true -> goc_ok g2 = true -> forall t tb k i, nrel t tb ->
+  exists t', nins g1 g2 t k i = Some t' /\ nrel t' (aset k i tb).
+Proof. exact nrel_nins. Qed.
+
+Theorem c13_nested_simulates_table_delete : forall prog, prog_safe prog = true -> forall t tb k, nrel t tb ->
+  match ndel prog t k with
+  | Some t' => nrel t' (adel k tb)
+  | None => alookup k tb = None
+  end.
+Proof. exact nrel_ndel. Qed.
